@@ -1101,11 +1101,20 @@ def gap_bin(gap, tol):
 SYM_SWITCH = ("symmetric Dubins: the remainder is re-planned in the other direction (the shorter of dubins(s3,to) and the reversed "
               "dubins(to,s3) is not the direction the original motion used)")
 RS_TIE = "Reeds-Shepp: the path re-planned from the point at s is a different word of the same length (tie between optimal words)"
-RS_F67 = ("Reeds-Shepp: the path re-planned from the point at s is longer than the remainder of the motion, which is a straight "
-          "segment (degenerate word rejected by the ZERO threshold: C14's F67)")
+RS_F67 = ("Reeds-Shepp: the path re-planned from the point at s is longer than the remainder of the motion, while reedsShepp(to, s3) "
+          "has exactly the remainder's length (asymmetry at an interpolated pose: the degenerate remaining word - a single straight or "
+          "arc segment - is rejected by the ZERO threshold in one direction only: C14's F67)")
 
 
-def car_reparam_class(usp, sub, s3t, tot, clen, s):
+RS_F67_STRAIGHT = ("Reeds-Shepp: the path re-planned from the point at s is longer than the remainder of the motion, which is a straight "
+                   "segment (degenerate word rejected by the ZERO threshold: C14's F67)")
+
+
+RS_F67_PAIR = ("Reeds-Shepp: the end points of the motion are joined by a straight segment but the planner returned a longer word "
+               "(degenerate word rejected by the ZERO threshold: C14's F67), so the path re-planned from the point at s is shorter than the remainder")
+
+
+def car_reparam_class(usp, sub, s3t, tot, clen, s, frt=None):
     """why a car-like component's continued interpolation left the original motion, from the FORWARD path lengths the harness
     printed for (from,to) (to,from) (s3,to) (to,s3) — independent of the interpolation under test"""
     if clen == "-":
@@ -1119,13 +1128,28 @@ def car_reparam_class(usp, sub, s3t, tot, clen, s):
         rem = (1.0 - s) * L[0]
         if abs(L[2] - rem) <= 1e-9 * (1.0 + L[0]):
             return RS_TIE
+        if L[2] > rem and abs(L[3] - rem) <= 1e-9 * (1.0 + L[0]) and abs(L[1] - L[0]) <= 1e-9 * (1.0 + L[0]):
+            # independent signature of F67: the whole motion is symmetric (L(a,b) = L(b,a)), the opposite direction finds the
+            # remainder's exact length, only reedsShepp(s3, to) is longer
+            return RS_F67
         if L[2] > rem:
+            # the remainder is a pure straight segment (target on the axis of the intermediate pose, same heading): the straight
+            # word is rejected in both directions (rounding leaves the target 1e-16 off the axis)
             (x, y), th = vals(sub[0], s3t[:2]), bf(s3t[2])
             (x2, y2), th2 = vals(sub[0], tot[:2]), bf(tot[2])
             dx, dy = x2 - x, y2 - y
             dth = abs(th2 - th)
-            if abs(dx * math.sin(th) - dy * math.cos(th)) <= 1e-9 * (1.0 + math.hypot(dx, dy)) and min(dth, abs(2 * PI - dth)) <= 1e-9:
-                return RS_F67
+            if abs(dx * math.sin(th) - dy * math.cos(th)) <= 1e-9 * (1.0 + math.hypot(dx, dy)) and min(dth, abs(2 * PI - dth)) <= 1e-9 \
+                    and abs(math.hypot(dx, dy) / car_rho(usp) - rem) <= 1e-9 * (1.0 + L[0]):
+                return RS_F67_STRAIGHT
+        if L[2] < rem and frt is not None:
+            (x, y), th = vals(sub[0], frt[:2]), bf(frt[2])
+            (x2, y2), th2 = vals(sub[0], tot[:2]), bf(tot[2])
+            dx, dy = x2 - x, y2 - y
+            dth = abs(th2 - th)
+            if abs(dx * math.sin(th) - dy * math.cos(th)) <= 1e-9 * (1.0 + math.hypot(dx, dy)) and min(dth, abs(2 * PI - dth)) <= 1e-9 \
+                    and L[0] > math.hypot(dx, dy) / car_rho(usp) * (1.0 + 1e-9):
+                return RS_F67_PAIR
     return "distance beyond tolerance"
 
 
@@ -1467,7 +1491,8 @@ def oracle_line(sp, line, out):
                                 cl_ = f.get("clen", [])
                                 fails.append({"clause": "reparam", "culprit": uk,
                                               "class": car_reparam_class(usp, sub, f["s3"][off:off + wid], sum((tok(lf_, v_) for lf_, v_ in zip(sub, b[li_:li_ + n_])), []),
-                                                                         cl_[ui] if ui < len(cl_) else "-", s),
+                                                                         cl_[ui] if ui < len(cl_) else "-", s,
+                                                                         sum((tok(lf_, v_) for lf_, v_ in zip(sub, a[li_:li_ + n_])), [])),
                                               "what": "interpolate(interpolate(a,b,s),b,u) is %.6g away from interpolate(a,b,s+(1-s)u) in the %s component "
                                                       "(s=%r,u=%r; closeness on the pose values)" % (gap, uk, s, u)})
                             else:
